@@ -17,13 +17,15 @@ CLAIMS = {
 }
 SES = 'TLA+ specifications spec/Ini.tla (INI reader automaton, section/name resolution, application, writer) and spec/ArgParse.tla, TLC'
 CLAIMS.update({
+    'C16': ('5.16', 'TLA+ specifications spec/Help.tla (which items are shown along the active chain, what each row says) and spec/HelpProps.tla (ContentOK, ManOK), TLC', 'invariant Lay (ContentOK part) of MC_Help on the layout the specification produces for every catalogue declaration, selectable chain and width; on the real code the same predicate is evaluated by TLC on the real help text (WriteHelp and the text inside ErrHelp) and ManOK on the real man page, for the enumerated cases and for seeded random declarations decorated with marker descriptions, value names, masks with unique secret defaults, hidden items at every depth; equality of the whole real text with the specification layout is reported as a fidelity figure'),
+    'C17': ('5.17', 'TLA+ specifications spec/Help.tla (alignment arithmetic, greedy wrapping over characters, hard break, minimum width) and spec/HelpProps.tla (LayoutOK), TLC', 'invariant Lay (no negative padding, LayoutOK) of MC_Help for all widths 0..120 (quick) / 0..300 (thorough) on catalogue declarations with non-ASCII names, long unbreakable words and embedded newlines; on the real code TLC evaluates LayoutOK (common description column, continuation lines indented to it, de-wrapped text equal to the original words, no line beyond the width when 10 columns remain) on the text produced with fd 0 attached to a pty of the chosen width, for the enumerated cases and seeded random declarations and widths 0..300'),
     'C18': ('5.18', 'TLA+ specifications spec/Completion.tla (the completion walk as the code does it, and the candidates derived from the parser context of spec/ArgParse.tla), TLC', 'invariants WalkAgreesWithParser (the separately implemented completion walk and the parser reach the same context and candidate list on every valid prefix), OfferedIsAccepted (every offered option / command name is accepted by the specification of the parser at that position) and Sorted of MC_Completion, exhaustively over typed words up to the bound and a set of partial words; every case and seeded random (declaration, valid prefix cut at a random point, partial word) scenarios are run through the real completion (GO_FLAGS_COMPLETION + CompletionHandler); TLC compares the offered items with the declarative candidate list and checks what the real parser answers to every offered name'),
     'C11': ('5.11', 'TLA+ specification spec/Conv.tla (digit-sequence integer grammar per base and bit size, booleans, key:value, literal tables for floats and durations, choices) inside spec/ArgParse.tla, TLC', 'invariants NativeAgree / RenderInverse of MC_Conv cross-check the digit-sequence arithmetic against native integers on the 8/16-bit types for all numerals up to the bound in bases 2, 8, 10, 16, 36; a boundary alphabet per (type, base) - limits and limits+-1 in the base, signs, leading zeros, blanks, underscores, prefixes, exponents, non-ASCII digits, float / duration / bool literals, choices and near misses - is sent through scalar, slice, map, pointer, slice-of-pointer, callback and positional on 57 conversion declarations and replayed on the real code; TLC compares acceptance, the stored value, the error type, the option named and the listed choices'),
     'C05': ('5.5', SES, 'invariant Precedence of MC_Sources (operational Set/setDefault/clearDefault/IniParser.parse protocol against the declarative ranking cli > ini > ini-as-defaults > env > default > preset, replace-never-extend) exhaustively over every subset of sources for every option of the sources declaration; every enumerated history replayed as real API calls; random histories (INI reads in both modes before/after ParseArgs, environment, defaults, presets) validated call by call against the specification'),
     'C12': ('5.12', SES, 'invariant TripInvariant of MC_Ini (Read(Write(values)) = values on the specification for a value alphabet of blanks, quotes, control, non-ASCII and invalid bytes, numeric limits, slices, maps, pointers, all eight IniOptions); every enumerated case and seeded random declarations with preset values are round-tripped on the real code (parser A: presets, parse, write; parser B: read, parse) and TLC compares the values'),
     'C13': ('5.13', SES, 'invariant EquivInvariant of MC_Ini (an entry in every naming form and section spelling stores what the flag stores, repeated entries like repeated flags, both reading modes) exhaustively on catalogue declarations; every case replayed on the real code as INI read and as command line; random INI texts addressing random declarations validated against the specification'),
     'C14': ('5.14', SES, 'invariant ReadInvariants of MC_Ini (typed located errors, noise and CRLF invariance, first syntactic fault always reported) over all files up to the bound over line shapes derived from each declaration; every file replayed on the real reader; random structured texts with noise, single faults, long lines and arbitrary bytes validated (no panic, error kind, line number, values)'),
-    'C15': ('5.15', SES, 'TLC enumerates small INI files on the specification with sections applied in every order and selects those whose outcome depends on the order; the real code is run 200 (quick) / 2000 (thorough) times on each selected file and on seeded random sessions (reads, writes with multi-entry maps) and every repetition must give the identical observation'),
+    'C15': ('5.15', SES + '; Trace_Help / Trace_Completion / Trace_ArgParse for the repeated observations', 'TLC enumerates small INI files on the specification with sections applied in every order and selects those whose outcome depends on the order; the real code is run 200 (quick) / 2000 (thorough) times on each selected file and on seeded random sessions (reads, writes with multi-entry maps) and every repetition must give the identical observation'),
     'C20': ('5.20', 'TLA+ specification spec/Closest.tla (row-wise Levenshtein over characters, suggestion rule), TLC', 'invariants Metric (symmetry, identity, triangle inequality, agreement with a brute-force definition) and Diagnosis of MC_Closest exhaustively over short strings; every enumerated (word, names) case and seeded random command sets are run through the real ParseArgs and TLC checks the message against the set of allowed outcomes'),
 })
 NA = {
